@@ -175,7 +175,7 @@ P("C15",
              "positions, ports, 63-bit counters, every event) are announced through the real HTTP and UDP tracker clients to scripted trackers that decode the request with "
              "their own code; every field must equal the torrent's, and the peer id must be the same 20 bytes the client presents to peers.",
   level_note="Trusted: harness/strk (own HTTP request-line/percent decoder, own BEP 15 decoder). The 'key' parameter is recorded in evidence, not asserted. "
-             "Timers are real: spacing is judged with a 60 ms tolerance on the harness's own clock readings at the stub tracker. 'stopped only to trackers that accepted an announce' is decided by the session-level unit when listed.",
+             "Timers are real: spacing is judged with a 60 ms tolerance on the harness's own clock readings at the stub tracker. 'stopped only to trackers that accepted an announce' is decided by the session-level unit c15.session.",
   technique="property-based testing (rapid): round trip through an independent decoder on the far side of a real socket",
   rule="transport {http, udp} x identity bytes x counters x event x numwant x tracker URLs with and without a query; every case is non-trivial (distinct = distinct case)",
   assumptions=["loopback UDP/TCP deliver datagrams/streams unmodified"],
@@ -186,6 +186,13 @@ P("C15",
      "{absent, 0, negative, tiny, huge}, failures with and without retry-in, delays) and generated complete / need-more-peers events: first event started, completed <= 1 and only "
      "if completion happened during the run, never stopped, and consecutive no-event announces after a successful reply at least min(client minimum, positive tracker values) - 60 ms apart",
      Q(48, 16, 900), T(1600, 16), shrinktime="8s"),
+   U("c15.session", "c15", "TestSession",
+     "a real session announces a real torrent (generated layout incl. totals that are an exact multiple of the piece length, generated set of pieces on storage, optional "
+     "download from a scripted seeder and upload to a scripted leecher, one or two runs, added started or stopped) to 1-4 scripted HTTP/UDP trackers (ok / failure / silent): "
+     "every announce carries the torrent's info-hash, port and one peer id (the one in the client's peer handshake); left == length of the pieces missing on storage (exact when "
+     "quiescent, shape and bounds while downloading; 0 in completed), uploaded/downloaded within the torrent's counters of the run and exact in stopped; first event of a run "
+     "started, completed <= 1 and only if the download finished in the run, stopped last and only to trackers that had sent an OK reply",
+     Q(64, 16, 900), T(3200, 16), shrinktime="20s"),
   ])
 
 P("C16",
